@@ -24,7 +24,7 @@ def big_chain(r0, coin, nblk=3):
     POOLK = b'\x03' + r0.randbytes(32)
 
     def txs_fn(h, c):
-        ntx = r0.choice([1, 2, 40, 300]) if h else 3
+        ntx = (1500 if h == 1 else r0.choice([1, 2, 40, 300])) if h else 3        # (one block beyond 1024 transactions of unequal sizes)
         txs = [btc.coinbase(h, None, outs=[{'val': 50 * 10 ** 8, 'spk': btc.p2pkh(r0.randbytes(20))}, {'val': 0, 'spk': b'\x6a' + btc.push(b'h%d' % h)}])]
         for k in range(ntx - 1):
             nout = r0.choice([1, 2, 3, 200]) if k % 37 == 0 else r0.randrange(1, 4)
